@@ -1233,6 +1233,9 @@ func (r *Raft) appendConfigurationEntry(future *configurationChangeFuture) {
 		}
 	}
 
+	// The new configuration takes effect as soon as its entry is appended, so
+	// it must already decide whether that entry itself is committed.
+	r.leaderState.commitment.setConfiguration(configuration)
 	r.dispatchLogs([]*logFuture{&future.logFuture})
 	index := future.Index()
 	r.setLatestConfiguration(configuration, index)
